@@ -250,6 +250,18 @@ def gen(tier, seed):
         s = Script(o)
         s.push([F_start("AMQPLAIN PLAIN EXTERNAL", "en_US fr_FR")]); s.push([tune_ok]); s.push([F_OPENOK])
         add(s)
+    # 1b. the good path and a server close during the handshake, with every read of the client
+    #     limited to 1 ... 13 bytes (frame headers split across reads at every offset)
+    for cut in ([1, 3, 5, 6, 7, 13] if tier == "quick" else list(range(1, 14))):
+        s = Script(default_opts())
+        s.steps.append("cut:%d" % cut)
+        s.push([F_start("AMQPLAIN PLAIN EXTERNAL", "en_US fr_FR")]); s.push([tune_ok]); s.push([F_OPENOK])
+        add(s)
+        if cut in (3, 5, 6, 7):
+            s = Script(default_opts(vhost="nope"))
+            s.steps.append("cut:%d" % cut)
+            s.push([F_start("PLAIN", "en_US")]); s.push([tune_ok]); s.push([F_close(530, "NOT_ALLOWED - vhost nope")])
+            add(s)
     # 2. mechanism / locale matching (whole words)
     for mechs, locs in [("PLAINX", "en_US"), ("XPLAIN PLAIN2", "en_US"), ("PLAIN", "en_USX"), ("", "en_US"), ("AMQPLAIN  PLAIN", "en_US"),
                         ("plain", "en_US"), ("PLAIN", "en_us"), ("PLAIN", "")]:
@@ -313,7 +325,7 @@ def slow_monitor(case, il, sl):
         if not opened:
             return ("every handshake step was answered within %d ms (timeout %d ms, three steps), yet: %s" % (step, timeout, err or lines[:2]), "c16-slow-server")
     elif step > timeout + 150:
-        if opened or err != "open err ConnectionTimeout":
+        if opened or not (err or "").startswith("open err ConnectionTimeout"):
             return ("the server stayed silent for %d ms per step with a timeout of %d ms: expected ConnectionTimeout, got %s" % (step, timeout, "a connection" if opened else err), "c16-timeout")
     return None
 
